@@ -675,6 +675,20 @@ func pairsV(ps []string) rec.V {
 }
 
 func (r *runner) expectation(c Call, res callResult, extra rec.V, asMirrors []int, asRels []string) (rec.V, bool) {
+	// calls refused by request validation have no mirror to be confirmed against
+	if !validEnt(c.S, idRe500) || !validEnt(c.R, idRe256) || !validAct(c.A) {
+		if c.Kind == "eval" || c.Kind == "evals" || c.Kind == "asearch" {
+			return "", false
+		}
+	}
+	for _, it := range c.Items {
+		if !validEnt(it.S, idRe500) || !validEnt(it.R, idRe256) || !validAct(it.A) {
+			return "", false
+		}
+	}
+	if c.Sem != nil && (*c.Sem < 0 || *c.Sem > 2) {
+		return "", false
+	}
 	single := func(i int) (rec.V, bool) {
 		if i < 0 {
 			return "", false
@@ -896,6 +910,9 @@ func (r *runner) runCase(d *caseDesc, relsOf func(string) ([]string, bool)) {
 			continue
 		}
 		r.w.Stat("calls_confirmed_by_reruns", 1)
+		if os.Getenv("C32_DEBUG") != "" {
+			fmt.Fprintf(os.Stderr, "SUSPECT %s exp=%s obs=%s\n", p.c.Kind, exp, p.observed)
+		}
 		authzenVaries := false
 		for k := 0; k < 8; k++ {
 			for _, i := range p.res.mirrors {
